@@ -255,7 +255,7 @@ def run_frontend(fe, tab, cfg_dict, tmpdir=None):
     """Returns the list of yielded ContextResults (evaluated)."""
     with warnings.catch_warnings():
         warnings.simplefilter("ignore")
-        cfg = Config(cfg_dict)
+        cfg = cfg_dict if isinstance(cfg_dict, Config) else Config(cfg_dict)
         if fe == "pandas":
             st = PandasStream(make_df(tab))
         elif fe == "numpy":
